@@ -942,7 +942,8 @@ def translate_locscale(out, index):
 def translate_one_locscale(mod, fn, fam, attrs, out, index):
     """shape:  variable = A.variable ; d: F = A.distribution ; [identity guard on free_symbols]
        [num, den = d.lamb.as_numer_denom() ; if num.free_symbols: raise] ; new_var = get_unique_var()
-       X = DistAssignment(new_var, F([...])) ; Y = PolyAssignment.deterministic(variable, f"...") ; return X, Y"""
+       X = DistAssignment(new_var, F([...])) ; Y = PolyAssignment.deterministic(variable, f"...") ;
+       [Y.auxiliary = A.auxiliary  (flag copy, no-op)] ; return X, Y"""
     argn = check_signature(mod, fn, 1)
     arg = argn[0]
     prefix = "transform_" + fam.lower()
@@ -1051,6 +1052,12 @@ def translate_one_locscale(mod, fn, fam, attrs, out, index):
             if ok:
                 continue
             raise Unsupported(mod.rel, s, "str() tuple form")
+        if isinstance(s, ast.Assign) and len(s.targets) == 1 and isinstance(s.targets[0], ast.Attribute) \
+                and s.targets[0].attr == "auxiliary" and isinstance(s.targets[0].value, ast.Name) \
+                and expr is not None and s.targets[0].value.id == expr[2] and is_attr(s.value, arg, "auxiliary"):
+            # new_assign.auxiliary = <orig>_assign.auxiliary : copies a bookkeeping flag of the rewritten
+            # assignment onto the new deterministic assignment; no effect on the draw or the arithmetic (no-op here)
+            continue
         if isinstance(s, ast.Return):
             r = s.value
             if not (isinstance(r, ast.Tuple) and len(r.elts) == 2 and all(isinstance(e, ast.Name) for e in r.elts)) or expr is None \
